@@ -527,11 +527,17 @@ def ktable_terms(ix, R, kt, pfx='7'):
                 if fmt(fl, gl[p]) not in ('%s.%s' % (rv, a), 'getattr(%s, %s)' % (rv, a)):
                     oksp = False
                     missing = ['k-table %s is %s, not %s.%s' % (p, fmt(fl, gl[p]), rv, a)]
-    R.check(pfx + '.split', 'SIB', site,
-            'contributions are split by type: everything that is not an AbsorptionContribution goes through contribute(), '
-            'the AbsorptionContribution (if present) through the k-distribution columns',
-            oksp, key='; '.join(m[:60] for m in missing) or 'split on another type',
-            detail='no statements of the expected shape: %s' % missing, loc=f.loc())
+    split_stmt = ('contributions are split by type: everything that is not an AbsorptionContribution goes through '
+                  'contribute(), the AbsorptionContribution (if present) through the k-distribution columns')
+    if bnd is None:
+        # the selection is written in a shape the matcher does not know: no evidence either way
+        R.error(pfx + '.split', 'SIB', site, split_stmt,
+                'the statement that builds the list of non-molecular contributions was not recognised: %s' % missing,
+                loc=f.loc())
+    else:
+        R.check(pfx + '.split', 'SIB', site, split_stmt,
+                oksp, key='; '.join(m[:60] for m in missing) or 'split on another type',
+                detail='no statements of the expected shape: %s' % missing, loc=f.loc())
     # I accumulation
     augs = [e for e in fl.of('aug') if e.loops == (kt['layer_loop'],) and e.op == 'Add'
             and e.value.mentions(lambda a: a.head == 'call' and a.extra and a.extra[0] == 'fn:black_body')]
